@@ -706,9 +706,34 @@ package sftp
 //@   ensures typeis(result, *sshFxpNamePacket) || typeis(result, *sshFxpStatusPacket)
 //@   ensures serverOK(svr)
 
+//@ ghost var didTrunc bool
+//@ ghost var didChmod bool
+//@ ghost var didChown bool
+//@ ghost var didChtimes bool
+//@ ghost var lastErrNil bool
+
 //@ func (*sshFxpSetstatPacket).respond
 //@   property C07, C02, C17
 //@   requires serverOK(svr)
+//@   update before call (*sshFxpSetstatPacket).unmarshalFileStat#1: ghost.didTrunc = false
+//@   update before call (*sshFxpSetstatPacket).unmarshalFileStat#1: ghost.didChmod = false
+//@   update before call (*sshFxpSetstatPacket).unmarshalFileStat#1: ghost.didChown = false
+//@   update before call (*sshFxpSetstatPacket).unmarshalFileStat#1: ghost.didChtimes = false
+//@   assert before call os.Truncate#1: p.Flags & sshFileXferAttrSize != 0 && arg0 == path && arg1 == int64(fs.Size) && !ghost.didChmod && !ghost.didChown && !ghost.didChtimes
+//@   update after call os.Truncate#1: ghost.didTrunc = true
+//@   assert before call os.Chmod#1: p.Flags & sshFileXferAttrPermissions != 0 && arg0 == path && arg1 == toFileMode(fs.Mode) && !ghost.didChown && !ghost.didChtimes
+//@   update after call os.Chmod#1: ghost.didChmod = true
+//@   assert before call os.Chown#1: p.Flags & sshFileXferAttrUIDGID != 0 && arg0 == path && arg1 == int(fs.UID) && arg2 == int(fs.GID) && !ghost.didChtimes
+//@   update after call os.Chown#1: ghost.didChown = true
+//@   assert before call os.Chtimes#1: p.Flags & sshFileXferAttrACmodTime != 0 && arg0 == path
+//@   update after call os.Chtimes#1: ghost.didChtimes = true
+//@   update before call statusFromError#1: ghost.lastErrNil = (arg1 == nil)
+//@   ensures ghost.lastErrNil ==> ((p.Flags & sshFileXferAttrSize != 0) <==> ghost.didTrunc)
+//@   ensures ghost.lastErrNil ==> ((p.Flags & sshFileXferAttrPermissions != 0) <==> ghost.didChmod)
+//@   ensures ghost.lastErrNil ==> ((p.Flags & sshFileXferAttrUIDGID != 0) <==> ghost.didChown)
+//@   ensures ghost.lastErrNil ==> ((p.Flags & sshFileXferAttrACmodTime != 0) <==> ghost.didChtimes)
+// (a set-attributes request that succeeds applied exactly the attributes whose flags it carries, in draft order,
+//  each with the decoded value and the request's path)
 //@   ensures svr.readOnly == old(svr.readOnly)
 //@   ensures result != nil && result.id() == p.ID
 //@   ensures typeis(result, *sshFxpStatusPacket)
@@ -717,6 +742,17 @@ package sftp
 //@ func (*sshFxpFsetstatPacket).respond
 //@   property C07, C02, C17
 //@   requires serverOK(svr)
+//@   update before call (*sshFxpFsetstatPacket).unmarshalFileStat#1: ghost.didTrunc = false
+//@   update before call (*sshFxpFsetstatPacket).unmarshalFileStat#1: ghost.didChmod = false
+//@   update before call (*sshFxpFsetstatPacket).unmarshalFileStat#1: ghost.didChown = false
+//@   assert before call (file).Truncate#1: p.Flags & sshFileXferAttrSize != 0 && arg0 == f && arg1 == int64(fs.Size) && !ghost.didChmod && !ghost.didChown
+//@   update after call (file).Truncate#1: ghost.didTrunc = true
+//@   assert before call (file).Chmod#1: p.Flags & sshFileXferAttrPermissions != 0 && arg0 == f && arg1 == toFileMode(fs.Mode) && !ghost.didChown
+//@   update after call (file).Chmod#1: ghost.didChmod = true
+//@   assert before call (file).Chown#1: p.Flags & sshFileXferAttrUIDGID != 0 && arg0 == f && arg1 == int(fs.UID) && arg2 == int(fs.GID)
+//@   update after call (file).Chown#1: ghost.didChown = true
+//@   update before call statusFromError#2: ghost.lastErrNil = (arg1 == nil)
+//@   ensures typeis(result, *sshFxpStatusPacket) && old(haskey(svr.openFiles, p.Handle)) && ghost.lastErrNil ==> ((p.Flags & sshFileXferAttrSize != 0) <==> ghost.didTrunc) && ((p.Flags & sshFileXferAttrPermissions != 0) <==> ghost.didChmod) && ((p.Flags & sshFileXferAttrUIDGID != 0) <==> ghost.didChown)
 //@   ensures svr.readOnly == old(svr.readOnly)
 //@   ensures result != nil && result.id() == p.ID
 //@   ensures typeis(result, *sshFxpStatusPacket)
